@@ -145,6 +145,9 @@ pub enum Sub<'a> {
 
 pub struct Lookup<'a> {
     pub lookup_type: u16,
+    /// raw lookup flag bits and the mark filtering set as read back
+    pub lookup_flag: u16,
+    pub mark_filtering_set: Option<u16>,
     pub subs: Vec<Sub<'a>>,
     /// 1 = PairPos format 1, 2 = PairPos format 2, 4 = MarkBasePos, per sub-table
     pub formats: Vec<u8>,
@@ -255,7 +258,7 @@ pub fn read_gpos(bytes: &[u8]) -> R<Vec<Lookup<'_>>> {
             _ => return Err(format!("lookup {li}: unexpected sub-table kind (type {})", lookup.lookup_type())),
         }
         drop(note_cov);
-        out.push(Lookup { lookup_type: lookup.lookup_type(), subs, formats, cov_formats, cov_ranges_max });
+        out.push(Lookup { lookup_type: lookup.lookup_type(), lookup_flag: lookup.lookup_flag().to_bits(), mark_filtering_set: lookup.mark_filtering_set(), subs, formats, cov_formats, cov_ranges_max });
     }
     Ok(out)
 }
